@@ -151,7 +151,7 @@ impl<const N: usize> AEADCipherCodec<N> {
             let salt = src.split_to(session.identity.salt.len());
             trace!("[tcp] get request salt {}", Base64::encode_string(&salt));
             self.decoder = Some(super::aead::new_decoder(context.kind, &context.key, &salt).map_err(anyhow::Error::msg)?);
-            Ok(None)
+            self.decode(context, session, src)
         }
     }
 
